@@ -5,6 +5,7 @@
 //! It contains *no oracle*: every judgement is made by TLC on the specification.
 
 mod lr;
+mod nlc;
 mod rng;
 mod util;
 
@@ -22,6 +23,7 @@ fn main() {
     let rc = match args[1].as_str() {
         "lr" => lr::main(&args[2..]),
         "lr-child" => lr::child_main(),
+        "nlc" => nlc::main(&args[2..]),
         x => {
             eprintln!("unknown subcommand {}", x);
             2
